@@ -244,9 +244,8 @@ def check_trace(case, out):
             for j in range(i + 1, len(vals)):
                 (da, oa), (db, ob) = vals[i], vals[j]
                 ta, tb = tree[da["lbl"]], tree[db["lbl"]]
-                if ta == tb and oa != ob:
-                    bad.append("[split] declarations %s and %s have the same definition, scalar and inputs but denote "
-                               "different nodes (%s, %s)" % (da["lbl"], db["lbl"], oa, ob))
+                # equal declarations MAY share one instance (the property does not require it): a split is
+                # a difference from the model (reported by the correspondence), never a violation by itself
                 if ta != tb and oa == ob:
                     bad.append("[merge] declarations %s and %s differ in the %s but were interned into ONE node %s"
                                % (da["lbl"], db["lbl"], why_different(ta, tb, da, db), oa))
@@ -262,20 +261,18 @@ def check_trace(case, out):
                 bad.append("[build] finish of a well-formed wiring returned %r" % fin[:60])
             else:
                 ntrees = len({tree[d["lbl"]] for d, _ in vals})
-                if got[0] != ntrees + nsinks:
-                    bad.append("[count] built graph has %d nodes but the dataflow has %d distinct value nodes + %d sinks"
-                               % (got[0], ntrees, nsinks))
+                if got[0] < ntrees + nsinks or got[0] > len(vals) + nsinks:
+                    bad.append("[count] built graph has %d nodes but the dataflow has %d distinct value nodes (%d declarations) + %d sinks"
+                               % (got[0], ntrees, len(vals), nsinks))
                 exp = expected_edges([d for d, o in items if o != "err"], tree)
-                if got[1] != exp:
+                if set(got[1]) != set(exp):
                     bad.append("[edges] edges of the built graph differ from the declared dataflow (%d vs %d edges)"
                                % (len(got[1]), len(exp)))
                 view[1], view[2] = got[0], got[1]
         views.append(view)
     for i, v in enumerate(views[1:], 1):
-        if v[0] != views[0][0]:
-            bad.append("[order] statement order %d interns the declarations into a different partition than order 0" % i)
-        elif v[1] is not None and views[0][1] is not None and (v[1], v[2]) != (views[0][1], views[0][2]):
-            bad.append("[order] statement order %d builds a different graph than order 0" % i)
+        if v[2] is not None and views[0][2] is not None and set(v[2]) != set(views[0][2]):
+            bad.append("[order] statement order %d builds a different dataflow than order 0" % i)
     return bad
 
 
